@@ -567,6 +567,42 @@ theorem parBatchMultiply_map (H : OpsMap F G f ok) (M : TransMap T T' f ok) (thr
     subst hz; exact H.ok_one
   · exact parBatchLoop_map H (multiply_mulMap H M threshold) numThreads _ (allOkO_map_some fs hfs)
 
+/-! ### no panic when the transform is defined on the needed length -/
+
+theorem length_resize' (xs : List α) (n : Nat) (z : α) : (resize xs n z).length = n := by
+  simp [resize]; omega
+
+/-- the transform pair is defined on vectors of length `n` and preserves the length -/
+def DefinedAt (T : Transform α) (n : Nat) : Prop :=
+  (∀ xs : List α, xs.length = n → ∃ ys, T.ntt xs = some ys ∧ ys.length = n) ∧
+  (∀ xs : List α, xs.length = n → ∃ ys, T.intt xs = some ys ∧ ys.length = n)
+
+theorem fastMultiply_isSome_of (F : FieldOps α) (T : Transform α) (a b : List α)
+    (hT : DefinedAt T (nextPowerOfTwo ((degree F a + degree F b).toNat + 1))) :
+    (fastMultiply F T a b).isSome := by
+  unfold fastMultiply fastMultiplyG
+  simp only
+  split
+  · rfl
+  · obtain ⟨l, hl, hll⟩ := hT.1 _ (length_resize' a _ F.zero)
+    obtain ⟨r, hr, hrl⟩ := hT.1 _ (length_resize' b _ F.zero)
+    obtain ⟨c, hc, _⟩ := hT.2 (List.zipWith F.mul l r) (by simp [hll, hrl])
+    simp [hl, hr, hc]
+
+theorem fastSquare_isSome_of (F : FieldOps α) (T : Transform α) (p : List α)
+    (hT : DefinedAt T (nextPowerOfTwo (2 * ((normalize F p).length - 1) + 1))) :
+    (fastSquare F T p).isSome := by
+  unfold fastSquare
+  split
+  · rfl
+  · rfl
+  · next c cs hn =>
+    rw [hn] at hT
+    simp only [List.length_cons, Nat.add_sub_cancel] at hT
+    obtain ⟨v, hv, hvl⟩ := hT.1 _ (length_resize' p _ F.zero)
+    obtain ⟨w, hw, _⟩ := hT.2 (v.map (fun e => F.mul e e)) (by simp [hvl])
+    simp [hv, hw]
+
 end
 
 end TF.Model.Poly.Hom
